@@ -15,6 +15,8 @@
 package ggql
 
 import (
+	"fmt"
+	"math"
 	"strconv"
 )
 
@@ -63,9 +65,9 @@ func (t *int64Scalar) CoerceOut(v interface{}) (interface{}, error) {
 	case nil:
 	// remains nil
 	case float32:
-		v = int64(tv)
+		v, err = int64FromFloat(float64(tv))
 	case float64:
-		v = int64(tv)
+		v, err = int64FromFloat(tv)
 	case int:
 		v = int64(tv)
 	case int8:
@@ -77,7 +79,7 @@ func (t *int64Scalar) CoerceOut(v interface{}) (interface{}, error) {
 	case int64:
 		// ok as is
 	case uint:
-		v = int64(tv)
+		v, err = int64FromUint64(uint64(tv))
 	case uint8:
 		v = int64(tv)
 	case uint16:
@@ -85,7 +87,7 @@ func (t *int64Scalar) CoerceOut(v interface{}) (interface{}, error) {
 	case uint32:
 		v = int64(tv)
 	case uint64:
-		v = int64(tv)
+		v, err = int64FromUint64(tv)
 	case string:
 		var i int64
 		if i, err = strconv.ParseInt(tv, 10, 64); err == nil {
@@ -96,4 +98,20 @@ func (t *int64Scalar) CoerceOut(v interface{}) (interface{}, error) {
 		v = nil
 	}
 	return v, err
+}
+
+func int64FromUint64(u uint64) (interface{}, error) {
+	if math.MaxInt64 < u {
+		return nil, fmt.Errorf("%w %d into a Int64, out of range", ErrCoerce, u)
+	}
+	return int64(u), nil
+}
+
+func int64FromFloat(f float64) (interface{}, error) {
+	// Written so that NaN fails the test as well. The upper bound is
+	// exclusive since float64(math.MaxInt64) rounds up to 2^63.
+	if !(-9223372036854775808.0 <= f && f < 9223372036854775808.0) {
+		return nil, fmt.Errorf("%w %v into a Int64, out of range", ErrCoerce, f)
+	}
+	return int64(f), nil
 }
